@@ -107,6 +107,14 @@ Section Spec.
       else (st, RErr EOther)
     else (mkStore (t_blobs st) (insert dg (mt, c) (t_mans st)) (insert rf dg (t_tags st)) (t_other st), ROk).
 
+  (* the stored manifests whose subject is [dg] *)
+  Definition preds_of (st : store) (dg : str) : list desc :=
+    flat_map (fun e => let '(k, (mt, c)) := e in
+                match subj_of subject_of c with
+                | Some s => if str_eqb (d_dg s) dg then [mkDesc mt k (len c)] else []
+                | None => []
+                end) (t_mans st).
+
   Definition spec_op (st : store) (o : op) : store * result :=
     match o with
     | OPush d c =>
@@ -172,7 +180,7 @@ Section Spec.
                   | None => (st, RErr ENotFound)
                   end
         end
-    | OPreds _ => (st, RDescs [])
+    | OPreds d => (st, RDescs (preds_of st (d_dg d)))
     | OBlobResolve s =>
         match resolve_ref main s with
         | None => (st, RErr EInvalidRef)
@@ -206,10 +214,16 @@ Section Spec.
 
   (* ---------- hypotheses of the refinement theorem ---------- *)
   (* What the caller must supply: valid digests; descriptors that are accurate for
-     what the store holds under their digest; decodable subject-less manifests with a
-     parsable media type; Predecessors is stated separately; and -- the known limitation
-     of the client, finding head-tag-no-digest-header -- a registry that sends
-     Docker-Content-Digest whenever a tag is resolved through a HEAD request. *)
+     what the store holds under their digest; decodable manifests with a parsable media
+     type, whose subject (if any) is processed by the registry (Referrers API; the
+     client-side referrers tag schema is C14); and -- the known limitation of the client,
+     finding head-tag-no-digest-header -- a registry that sends Docker-Content-Digest
+     whenever a tag is resolved through a HEAD request. *)
+  Definition sub_ok (c : str) : Prop :=
+    subject_of c = Some None \/
+    (p_referrers p = true /\ exists s, subject_of c = Some (Some s) /\ d_dg s <> []).
+  (* the client's referrers state: "unsupported" only against a registry without the API *)
+  Definition rst_ok (rst : rstate) : Prop := rst <> RSUnsupported \/ p_referrers p = false.
   Definition acc_man (st : store) (d : desc) : Prop :=
     forall mt c, lookup (d_dg d) (t_mans st) = Some (mt, c) -> mt = d_mt d /\ len c = d_sz d.
   Definition acc_blob (l : list (str * str)) (d : desc) : Prop :=
@@ -219,7 +233,7 @@ Section Spec.
     match o with
     | OPush d c =>
         valid_digest (d_dg d) = true /\
-        (is_manifest user_mts d = true -> subject_of c = Some None /\ parse_mt (d_mt d) = Some (d_mt d))
+        (is_manifest user_mts d = true -> sub_ok c /\ parse_mt (d_mt d) = Some (d_mt d))
     | OFetch d | ODelete d =>
         valid_digest (d_dg d) = true /\
         (if is_manifest user_mts d then acc_man st d else acc_blob (t_blobs st) d)
@@ -232,12 +246,12 @@ Section Spec.
     | OTag d _ => valid_digest (d_dg d) = true /\ acc_man st d
     | OPushRef d c _ =>
         valid_digest (d_dg d) = true /\ matches_desc d c = true /\
-        subject_of c = Some None /\ parse_mt (d_mt d) = Some (d_mt d)
+        sub_ok c /\ parse_mt (d_mt d) = Some (d_mt d)
     | OMount d (Some c) =>
         valid_digest (d_dg d) = true /\ matches_desc d c = true /\
         (forall c', lookup (d_dg d) (t_other st) = Some c' -> c' = c)
     | OMount d None => valid_digest (d_dg d) = true /\ acc_blob (t_other st) d
-    | OPreds _ => False
+    | OPreds _ => p_referrers p = true
     | OBlobResolve _ | OBlobFetchRef _ => True
     end.
 
